@@ -215,8 +215,13 @@ impl Check for C16 {
         gp.n_files = gp.n_files.min(4);
         gp.n_events = gp.n_events.max(1);
         let model = gen_model(&mut r.split("model"), &gp);
-        let cfg = super::c14::gen_cfg(&mut r.split("cfg"), &setup);
+        let mut cfg = super::c14::gen_cfg(&mut r.split("cfg"), &setup);
         let mut fr = r.split("foreign");
+        if setup.entry == Entry::Cli && setup.conf != ConfSrc::Flags && fr.chance(1, 3) {
+            // the file names another directory; the command line's -o must win
+            cfg.file_out = Some("app/src/named-in-config-file".into());
+        }
+        setup.proj_style = *fr.pick(&[0u8, 0, 0, 1, 2, 3]);
         let out_exists = fr.chance(4, 5);
         let symlink_target = if out_exists && fr.chance(1, 7) { Some(format!("real-out-{}", fr.range(1, 9))) } else { None };
         let mut foreign = vec![];
@@ -258,6 +263,9 @@ impl Check for C16 {
                     1 if setup.conf != ConfSrc::Standalone => "init_custom",
                     // bare `init`: every path defaulted (./src-tauri, ./src/generated, tauri.conf.json)
                     2 if setup.conf != ConfSrc::Standalone && setup.cwd == Cwd::App => "init_default",
+                    // `init -o ./tauri.conf.json` in a directory that has its own tauri.conf.json
+                    // (only as the last run: afterwards two config files compete)
+                    3 if setup.conf != ConfSrc::Standalone && setup.cwd == Cwd::App && k + 1 == n_runs => "init_here",
                     _ => "generate",
                 },
             };
@@ -317,6 +325,14 @@ impl Check for C16 {
                     init_target = Some(format!("{}/tauri.conf.json", canon_dir(&w.src_tauri())));
                     Call::Cli(vec!["cargo".into(), "tauri-typegen".into(), "init".into()])
                 }
+                "init_here" => {
+                    // the user keeps a tauri.conf.json next to package.json and points init at it
+                    std::fs::write(cwd.join("tauri.conf.json"), "{ \"productName\": \"here\", \"plugins\": {} }\n").unwrap();
+                    init_target = Some(format!("{}/tauri.conf.json", canon_dir(&cwd)));
+                    let mut a: Vec<String> = vec!["cargo".into(), "tauri-typegen".into(), "init".into()];
+                    a.extend(["-p".into(), w.project_arg(&c.setup), "-g".into(), w.output_arg(&c.setup), "-o".into(), "./tauri.conf.json".into()]);
+                    Call::Cli(a)
+                }
                 "init" | "init_custom" => {
                     let mut a: Vec<String> = vec!["cargo".into(), "tauri-typegen".into(), "init".into()];
                     a.push("-p".into());
@@ -341,7 +357,9 @@ impl Check for C16 {
             // an earlier `init` may have re-pointed plugins.typegen.outputPath.
             let out_this_run: std::path::PathBuf = match run.kind.as_str() {
                 "init_default" => w.root.join("app/src/generated"),
-                "init" | "init_custom" => out.clone(),
+                "init" | "init_custom" | "init_here" => out.clone(),
+                // -o on the command line beats the directory the file names
+                _ if c.cfg.file_out.is_some() && c.setup.entry == Entry::Cli => out.clone(),
                 _ if c.setup.conf == ConfSrc::Tauri => {
                     let conf_path = w.src_tauri().join("tauri.conf.json");
                     let v: Option<Value> = std::fs::read_to_string(&conf_path).ok().and_then(|t| serde_json::from_str(&t).ok());
